@@ -10,11 +10,13 @@
 (*   property ConservativeIfOK   SyntacticOK(d) => Conservative(d, N)     (the two readings of the statement) *)
 (*            AddedWellTyped     everything in an extended theory is well-typed over ITS signature           *)
 (*            OnlyOKAdded        a theory only grows by candidates that satisfy the conditions                *)
-(* The universe: constant types of arity <= 2 over bool / 'a; left-hand sides with variables, REPEATED        *)
-(* variables, constants and applications as arguments, partial application; right-hand sides = all well-typed *)
-(* terms of depth <= Depth over the arguments, EXTRA free (schematic) variables, the logical constants, the   *)
-(* constant being defined (self-reference), other instances of an OVERLOADED name, and polymorphic closed     *)
-(* formulas whose type variable is absent from the constant's type.                                          *)
+(*            AllExaminable      every acceptable candidate can be judged semantically (no vacuous implication)   *)
+(* The universe: names new ("c"), overloadable ("ov" :: 'a) and already declared ("neg"); constant types of    *)
+(* arity <= 2 over bool / 'a; left-hand sides with variables, REPEATED variables, constants and applications  *)
+(* as arguments, partial application; right-hand sides = all well-typed terms of depth <= Depth over the      *)
+(* arguments, EXTRA free and schematic variables, the logical constants, the constant being defined (self-    *)
+(* reference), the same name at OTHER types (overlapping or not), and closed polymorphic formulas whose type  *)
+(* variable ('b or schematic ?'b) is absent from the constant's type.                                        *)
 (* The post-condition writes every candidate with both verdicts as a vector for replay into server/items.py. *)
 EXTENDS C11_Def, FiniteSets, Json, IOUtils
 
@@ -113,7 +115,6 @@ ConservativeIfOK == (SyntacticOK(d) /\ NewName(BaseThy, d) /\ CExaminable(d, N))
 AllExaminable == (SyntacticOK(d) /\ NewName(BaseThy, d)) => CExaminable(d, N)
 AddedWellTyped == \A p \in thy.thms : PropOK(p, CSig(thy), thy.types)
 OnlyOKAdded == thy.thms # {} => phase = "added" /\ thy.thms = {DefProp(d)} /\ SyntacticOK(d)
-\* the semantic reading is strictly weaker on the universe (why the literal reading is the violation clause): informational
 \* ---------------------------------------------------------------- vectors
 ToJ(x) == LET ex == CExaminable(x, N) IN
           [name |-> x.name, T |-> x.T, args |-> x.args, rhs |-> x.rhs,
